@@ -4,6 +4,7 @@ package lab
 
 import (
 	"bytes"
+	"strings"
 	"sync"
 	"encoding/json"
 	"errors"
@@ -45,6 +46,8 @@ type StdOpts struct {
 	// IdleAdvance: when nothing is enabled and the script is exhausted/blocked, advance the clock by this (0 = stop).
 	IdleAdvance time.Duration
 	MaxIdle     int
+	// HoldStorage: parked storage operations are not released by the default policy.
+	HoldStorage bool
 }
 
 func (w *World) stdOpts() *StdOpts { return w.Vars["std"].(*StdOpts) }
@@ -114,6 +117,9 @@ func StdActions(w *World) []Action {
 		}
 	}
 	for k, op := range w.Store.PendingOps() {
+		if o.HoldStorage {
+			break
+		}
 		k := k
 		acts = append(acts, Action{Label: "storage:release:" + op, Do: func(w *World) { w.Store.Release(k, nil) }})
 	}
@@ -225,12 +231,22 @@ type Run struct {
 	Arg      any
 	Budget   int
 	MaxExec  int64
+	// SelectLast runs the exploration with the runtime resolving every multi-ready select in favour of the
+	// LAST ready case in source order (default: the first). Both orders are legal Go executions.
+	SelectLast bool
 }
 
 // Explore runs the given explorations over a worker pool (concurrently) and folds the results into rep.
 func Explore(testName string, rep *core.Report, runs []Run) {
 	pool := core.NewPool(testName, core.Parallelism(), 120*time.Second)
 	defer pool.Close()
+	var poolLast *core.Pool
+	for _, r := range runs {
+		if r.SelectLast && poolLast == nil {
+			poolLast = core.NewPool(testName, core.Parallelism(), 120*time.Second, "VERIF_SELECT=last")
+			defer poolLast.Close()
+		}
+	}
 	var mu sync.Mutex
 	states := map[uint64]struct{}{}
 	outcomes := map[string]int64{}
@@ -244,7 +260,13 @@ func Explore(testName string, rep *core.Report, runs []Run) {
 			defer func() { <-sem; wg.Done() }()
 			argb, _ := json.Marshal(r.Arg)
 			ex := &core.ParallelExplorer{Pool: pool, Scenario: r.Scenario, Arg: argb, Budget: r.Budget, MaxExec: r.MaxExec}
+			if r.SelectLast {
+				ex.Pool = poolLast
+			}
 			ex.Visit = func(job core.ExecJob, res *core.ExecResult, crash string, hang bool) {
+				if crash != "" && strings.Contains(crash, "HARNESS-ERROR:") {
+					core.HarnessError("worker reported a harness error in scenario %s arg %s prefix %v: %s", r.Scenario, argb, job.Prefix, crash)
+				}
 				if crash != "" {
 					rep.Violate("crash.process."+crashKeyFromStderr(crash), fmt.Sprintf("worker process died while executing scenario %s arg %s prefix %v:\n%s", r.Scenario, argb, job.Prefix, crash),
 						map[string]any{"scenario": r.Scenario, "arg": r.Arg, "choices": job.Prefix})
@@ -255,6 +277,12 @@ func Explore(testName string, rep *core.Report, runs []Run) {
 					return
 				}
 				for _, v := range res.Violations {
+					if r.SelectLast {
+						if m, ok := v.Replay.(map[string]any); ok {
+							m["select"] = "last"
+						}
+						v.Desc += "\n  (runtime select order: last ready case wins; replay with VERIF_SELECT=last)"
+					}
 					rep.Violate(v.Key, v.Desc, v.Replay)
 				}
 				for k, n := range res.Counters {
